@@ -939,7 +939,7 @@ WILD_TEXTS = ['a', 'B', 'b', 'A', 'aa', 'aB', 'ab', 'Ba', 'a.', '.', '[', 'a[', 
 def wildcard_criteria(tier, rng):
     pats = [''.join(p) for n in (1, 2, 3) for p in itertools.product(WILD_ALPHABET, repeat=n)]
     four = [''.join(p) for p in itertools.product(WILD_ALPHABET, repeat=4)]
-    pats += four if tier == 'thorough' else rng.sample(four, 260)
+    pats += four if tier == 'thorough' else rng.sample(four, 150)
     pats += ['a*a*a', '*a*B*', '?????', '????', 'a~*~?~~', '*[*', '*.*', 'a?c', 'a*c', '*c', 'x*', '*x', 'hello*', '*WORLD', 'h?llo world']
     out = []
     for p in pats:
@@ -965,7 +965,7 @@ def check_wildcards(tier, seed):
                                ['a', 'ab', 'Ba', 'a*', '?', 'a.', 'abc', 7, BLANK], (0, 1, 2, 3, 4))
     return _collect(
         'C12.monitor.criteria_wildcard',
-        f'every pattern of 1..3 symbols over {{a B ? * ~ . [}} ({"all" if tier == "thorough" else "260 sampled"} of length 4) plus 15 '
+        f'every pattern of 1..3 symbols over {{a B ? * ~ . [}} ({"all" if tier == "thorough" else "150 sampled"} of length 4) plus 15 '
         f'longer ones = {len(crits)} criteria x {len(values)} cells (texts of length 1..5 containing the pattern symbols themselves, '
         f'a number, a blank) in COUNTIFS{"" if tier == "quick" else " (and SUMIFS for patterns of up to 3 symbols)"}; 10 patterns x 9 cells in all 5 places',
         'one evaluation = one one-cell formula; the reference matcher is a whole-text dynamic-programming matcher (? one character, '
